@@ -302,7 +302,9 @@ theorem packIdx_basic : ∀ (ts : List Ty) (cx : Cx) (fx : Fx) (pre vs : List V)
           have hcast : ((pre ++ [x]).length : Int) = (pre.length : Int) + 1 := by simp
           rw [hcast] at hbs
           simp only [List.append_assoc, List.singleton_append] at hbs
-          simp only [pyIndexO, hidx, R.bind_ok, hb, hbs, R.pure_eq]
+          by_cases hcp : t.constPack = true
+          · simp only [hcp, if_true, R.pure_eq, R.bind_ok, pack_const O cx fx t hcp V.none x, hb, hbs]
+          · simp only [hcp, Bool.false_eq_true, if_false, pyIndexO, hidx, R.bind_ok, hb, hbs, R.pure_eq]
         · intro y hy
           cases hy with
           | head => exact hbb
@@ -327,7 +329,9 @@ theorem packNT_basic : ∀ (cls : String) (fs : List (String × Ty)) (cx : Cx) (
           have hcast : ((pre ++ [x]).length : Int) = (pre.length : Int) + 1 := by simp
           rw [hcast] at hbs
           simp only [List.append_assoc, List.singleton_append] at hbs
-          simp only [pyIndexO, hidx, R.bind_ok, hb, hbs, R.pure_eq]
+          by_cases hcp : t.constPack = true
+          · simp only [hcp, if_true, R.pure_eq, R.bind_ok, pack_const O cx fx t hcp V.none x, hb, hbs]
+          · simp only [hcp, Bool.false_eq_true, if_false, pyIndexO, hidx, R.bind_ok, hb, hbs, R.pure_eq]
         · intro y hy
           cases hy with
           | head => exact hbb
